@@ -5,7 +5,7 @@ CHECK = dict(
     variants=[dict(name="asan", flavour="asan")],
     floor={"asan:opt_op_copy-assign": 100, "asan:opt_op_move-construct": 100, "asan:any_cmp_empty_valid": 20,
            "asan:any_toString_empty": 20, "asan:opt_cmp_empty_empty": 20,
-           "asan:opt_fault_in_emplace": 50, "asan:opt_fault_in_copy-assign": 30, "asan:opt_fault_in_make_optional": 50,
+           "asan:value_or_across_types": 1000, "asan:opt_fault_in_emplace": 50, "asan:opt_fault_in_copy-assign": 30, "asan:opt_fault_in_make_optional": 50,
            "asan:opt_fault_in_assign-value-lvalue": 50},
     assumptions=[
         "after a payload operation that throws (failpoint in the instrumented payload) the wrapper may report engaged or empty; what "
